@@ -49,13 +49,11 @@ impl<T> Validator<T> {
     pub fn get_module_and_name(&self) -> (&str, &str) {
         let mut split = self.title.split('.');
 
-        let known_module_name = split
-            .next()
-            .expect("validator's name must have two dot-separated components.");
+        // A validator's title has (at least) two dot-separated components; a title read
+        // from a hand-edited blueprint that has fewer simply matches no module / validator.
+        let known_module_name = split.next().unwrap_or_default();
 
-        let known_validator_name = split
-            .next()
-            .expect("validator's name must have two dot-separated components.");
+        let known_validator_name = split.next().unwrap_or_default();
 
         (known_module_name, known_validator_name)
     }
